@@ -107,8 +107,12 @@ by new; model bytes = real bytes (`save_incr`), model load = real load. Non-triv
             let prev_view = inc.get_prev_documents().clone();
             // edits: replace some, add some
             let ids: Vec<_> = prev_view.objects.keys().cloned().filter(|id| !matches!(prev_view.objects[id], Object::Stream(ref s) if s.dict.has_type(b"XRef"))).collect();
-            for id in &ids { if r.chance(1, 3) { let o = gen_obj(&mut r, 3); inc.new_document.set_object(*id, o.clone()); expected.objects.insert(*id, o); c.count("incr.replaced"); } }
-            for _ in 0..r.usize(3) { let o = if r.chance(1, 4) { Object::Stream(gen_stream(&mut r, 1)) } else { gen_obj(&mut r, 3) }; let id = inc.new_document.add_object(o.clone()); expected.objects.insert(id, o); c.count("incr.added"); }
+            // modes: empty update (nothing replaced, nothing added), replace-only, replace+add; a replacement may be `null`
+            let mode = r.usize(6);
+            if mode == 0 { c.count("incr.empty_update"); }
+            if mode == 1 { c.count("incr.replace_only"); }
+            for id in &ids { if mode != 0 && r.chance(1, 3) { let o = if r.chance(1, 8) { c.count("incr.replaced_by_null"); Object::Null } else { gen_obj(&mut r, 3) }; inc.new_document.set_object(*id, o.clone()); expected.objects.insert(*id, o); c.count("incr.replaced"); } }
+            for _ in 0..(if mode <= 1 { 0 } else { r.usize(3) }) { let o = if r.chance(1, 4) { Object::Stream(gen_stream(&mut r, 1)) } else { gen_obj(&mut r, 3) }; let id = inc.new_document.add_object(o.clone()); expected.objects.insert(id, o); c.count("incr.added"); }
             let kind = if stream { "stream" } else { "table" };
             let nd = &inc.new_document;
             let req = format!("save_incr {} {} {} {} {} {} {}", kind, nd.max_id, hex_tok(nd.version.as_bytes()), hex_tok(&nd.binary_mark), hex_tok(&bytes),
